@@ -103,7 +103,8 @@ def merge3(base, ann, cur, dropped=None):
     for g, run in runs.items():
         left = m[g - 1] if g > 0 else -1
         right = m[g] if g < n else len(cur)
-        closing = run[0] in ("}", ")", "]")
+        # right-affine runs: closing brackets, and spec clause lists (they sit immediately before a body `{`)
+        closing = run[0] in ("}", ")", "]") or run[0] in E.SPEC_KW
         if g == 0:
             pos = -1
         elif g == n:
